@@ -9,7 +9,7 @@ import re
 
 import vcheck as V
 
-DRIVER_FILES = ["scansim.go", "isosim.go", "codecord.go", "mergesim.go"]
+DRIVER_FILES = ["scansim.go", "isosim.go", "codecord.go", "mergesim.go", "idxsim.go"]
 
 _re_mis = re.compile(r'<<\s*"MISMATCH",\s*(\d+),\s*(.*?)(?=<<\s*"MISMATCH"|\Z)', re.S)
 
@@ -95,6 +95,7 @@ def scan_signature(eng, policy, seg):
             sig["driver"] = "mergesim"
             sig["no_count"] = bool(b.get("nc"))
             sig["count_below_partitions"] = 0 < b.get("count", 0) < 3
+            sig["has_pattern"] = bool(b.get("pat"))
     err = e.get("err", "") if e.get("ev") == "page" else ""
     if err:
         sig["class"] = "error-reply"
@@ -136,7 +137,9 @@ def iso_signature(eng, policy, seg, what):
     diff = set(int(x) for x in re.findall(r"<<(\d+), <<", what.split("{", 1)[1])) if "{" in what else set()
     op = e.get("op")
     if op == "deltable":
-        addressed = set(u for u in range(1, 5 * NT * NK + 1) if tup_parts(u)[1] == e.get("a"))
+        addressed = set(u for u in range(1, 8 * NT * NK + 1) if tup_parts(u)[1] == e.get("a"))
+        if diff:
+            sig["left_only_ext_types"] = all(tup_parts(u)[0] >= 6 for u in diff) and diff <= addressed
         tabs = reset.get("tabs", [])
         if 1 <= e.get("a", 0) <= len(tabs):
             try:
